@@ -6,13 +6,13 @@
    execution of a prefix of the operation list.  The operation ORDER is not written here: it is
    gen/UploadGen.v (translated from remote_putfile, save_service_data, move_into_place) interpreted by `interp`.
 
-   Not modelled: symbolic and hard links created by other local parties, power loss (no fsync in the code),
+   Not modelled: a directory at the FINAL name (rename(2) onto it fails), links planted concurrently, power loss (no fsync in the code),
    rename(2) atomicity is the trusted primitive. *)
 From Coq Require Import NArith List Bool Arith.
 Import ListNotations.
 Require Import Verif.lib.UploadShape Verif.gen.UploadGen Verif.lib.Paths.
 
-Inductive ent := F (i : nat) | L (target : str).   (* regular file (inode) | symbolic link *)
+Inductive ent := F (i : nat) | L (target : str) | D.   (* regular file (inode) | symbolic link (its text) | directory *)
 
 Record st := mkst {
   names : str -> option ent;          (* directory entries (absolute path -> entry) *)
@@ -30,12 +30,28 @@ Inductive op :=
 | Rename (a b : str)                  (* rename(2): replaces b itself, even if b is a symlink *)
 | Chmod (p : str)                     (* os.chmod follows a symlink *)
 | Unlink (p : str)
-| UnlinkIfLink (p : str).             (* if islink(p): remove(p) *)
+| UnlinkIfLink (p : str)              (* if islink(p): remove(p)   (lstat) *)
+| UnlinkIfExists (p : str).           (* if exists(p): remove(p)   (stat: follows symlinks) *)
 
 Definition upd {A} (f : str -> A) (p : str) (v : A) : str -> A := fun q => if str_eqb q p then v else f q.
 Definition updn (f : nat -> list N) (i : nat) (v : list N) : nat -> list N := fun j => if Nat.eqb j i then v else f j.
 Definition fail (s : st) : st := mkst (names s) (data s) (next s) (handle s) true (followed s).
 Definition follow (s : st) : st := mkst (names s) (data s) (next s) (handle s) true true.
+
+(* where a symlink at p with text t leads (components that are themselves symlinked directories are not modelled) *)
+Definition link_dest (p t : str) : str := normpath (join (dirname p) t).
+
+(* os.path.exists(p): stat(2), i.e. symlinks are followed; a dangling link (or a loop) does not exist *)
+Fixpoint exists_at (fuel : nat) (s : st) (p : str) : bool :=
+  match fuel with
+  | O => false
+  | S f => match names s p with
+           | None => false
+           | Some (F _) | Some D => true
+           | Some (L t) => exists_at f s (link_dest p t)
+           end
+  end.
+Definition exists_fuel : nat := 9.
 
 Definition step (s : st) (o : op) : st :=
   if failed s then s else
@@ -44,6 +60,7 @@ Definition step (s : st) (o : op) : st :=
     match names s p with
     | Some (F i) => mkst (names s) (updn (data s) i []) (next s) (Some (i, [])) false (followed s)
     | Some (L _) => follow s
+    | Some D => fail s
     | None => mkst (upd (names s) p (Some (F (next s)))) (updn (data s) (next s) []) (S (next s))
                    (Some (next s, [])) false (followed s)
     end
@@ -63,7 +80,7 @@ Definition step (s : st) (o : op) : st :=
                 else mkst (upd (upd (names s) b (Some e)) a None) (data s) (next s) (handle s) false (followed s)
     | None => fail s
     end
-  | Chmod p => match names s p with Some (F _) => s | Some (L _) => follow s | None => fail s end
+  | Chmod p => match names s p with Some (F _) | Some D => s | Some (L _) => follow s | None => fail s end
   | Unlink p =>
     match names s p with
     | Some _ => mkst (upd (names s) p None) (data s) (next s) (handle s) false (followed s)
@@ -74,19 +91,23 @@ Definition step (s : st) (o : op) : st :=
     | Some (L _) => mkst (upd (names s) p None) (data s) (next s) (handle s) false (followed s)
     | _ => s
     end
+  | UnlinkIfExists p =>
+    if exists_at exists_fuel s p
+    then mkst (upd (names s) p None) (data s) (next s) (handle s) false (followed s)
+    else s
   end.
 
 Definition run (s : st) (ops : list op) : st := fold_left step ops s.
 
 (* what lstat + read of path p shows *)
-Inductive view := VNone | VLink (t : str) | VFile (content : list N).
+Inductive view := VNone | VLink (t : str) | VFile (content : list N) | VDir.
 Definition look (s : st) (p : str) : view :=
-  match names s p with None => VNone | Some (L t) => VLink t | Some (F i) => VFile (data s i) end.
+  match names s p with None => VNone | Some (L t) => VLink t | Some (F i) => VFile (data s i) | Some D => VDir end.
 
 (* paths named by an operation *)
 Definition touched (o : op) : list str :=
   match o with
-  | Open p | Write p _ | Close p | Chmod p | Unlink p | UnlinkIfLink p => [p]
+  | Open p | Write p _ | Close p | Chmod p | Unlink p | UnlinkIfLink p | UnlinkIfExists p => [p]
   | Rename a b => [a; b]
   end.
 
@@ -102,6 +123,8 @@ Fixpoint effective (s : st) (ops : list op) : list op :=
                         | Some (L _) => Unlink p :: effective (step s o) r
                         | _ => effective (step s o) r
                         end
+    | UnlinkIfExists p => if exists_at exists_fuel s p then Unlink p :: effective (step s o) r
+                          else effective (step s o) r
     | _ => o :: effective (step s o) r
     end
   end.
@@ -118,6 +141,7 @@ Definition interp (tmp final : str) (chunks : list (list N)) (k : stepk) : list 
   | SChmod t => [Chmod (pth tmp final t)]
   | SUnlink t => [Unlink (pth tmp final t)]
   | SUnlinkIfLink t => [UnlinkIfLink (pth tmp final t)]
+  | SUnlinkIfExists t => [UnlinkIfExists (pth tmp final t)]
   end.
 
 Definition interps (tmp final : str) (chunks : list (list N)) (ks : list stepk) : list op :=
@@ -165,7 +189,7 @@ Definition mk_st (ents : list (str * ent)) (contents : list (list N)) : st :=
        (fun i => nth i contents []) (List.length contents) None false false.
 
 Definition code_view (v : view) : list N :=
-  match v with VNone => [0%N] | VLink t => 1%N :: t | VFile c => 2%N :: c end.
+  match v with VNone => [0%N] | VLink t => 1%N :: t | VFile c => 2%N :: c | VDir => [9%N] end.
 
 Definition code_op (o : op) : N * str * str * N :=
   match o with
@@ -176,6 +200,7 @@ Definition code_op (o : op) : N * str * str * N :=
   | Chmod p => (5%N, p, [], 0%N)
   | Unlink p => (6%N, p, [], 0%N)
   | UnlinkIfLink p => (7%N, p, [], 0%N)
+  | UnlinkIfExists p => (8%N, p, [], 0%N)
   end.
 
 Definition code_opt (o : option str) : list N := match o with None => [0%N] | Some p => 1%N :: p end.
